@@ -36,7 +36,8 @@ CLAIMED = [
            'counters, genus and needs_garbage_collection describe the survivors; identical in all four modes) on every recorded deletion.' + COMMON, TECH, 'DESIGN.md section 6, C02'),
     kernel('C03', 'Step relation PropFollows for 19 tracked properties (int, bool, double, string, Vec3d; shared, private, persistent) on all seven '
            'entity kinds through the slot map of each call (deletion in every mode, garbage collection, swaps, clear, growth): one element per slot, '
-           'survivors keep their value and side, new slots hold the default.' + COMMON, TECH, 'DESIGN.md section 6, C03'),
+           'survivors keep their value and side, new slots hold the default; vertex positions are one of the tracked properties; tetrahedral '
+           'collapse_edge / split_* through the relation CollapsePropsFollow of OVMTet.tla (sizes, vertex, cell and unaffected edge/face values).' + COMMON, TECH, 'DESIGN.md section 6, C03; docs/tethex.md'),
     kernel('C04', 'Step relations GCRel and StatusGCRel (no pending deletions afterwards; live entities, definitions and property values preserved '
            'through a bijection; status-marked closure removed; with the manifoldness option exactly the faces/edges/vertices bounding no cell; every '
            'vertex/halfedge/halfface/cell handle handed in for tracking designates the same entity or is invalid).' + COMMON, TECH, 'DESIGN.md section 6, C04'),
